@@ -139,7 +139,11 @@ fn cases(names: &[HsName], dhs: &[DhKind], thorough: bool, seed: u64) -> Vec<Cas
                 continue; // quick: alternate the DH over the names
             }
             let suite = *suites.iter().filter(|s| s.dh == *dh).nth((ni * 5 + 1) % 12).unwrap();
-            let spec = SessionSpec::simple(hs.clone(), suite, mix(seed, ni as u64));
+            let mut spec = SessionSpec::simple(hs.clone(), suite, mix(seed, ni as u64));
+            if ring_covers(suite) && ni % 2 == 0 {
+                spec.backend_i = crate::instr::Backend::RingFirst;
+                spec.backend_r = crate::instr::Backend::RingFirst;
+            }
             for (idx, lay) in spec.layouts().iter().enumerate() {
                 let max = 65535 - lay.overhead;
                 let mut push = |kind: Kind| out.push(Case { spec: spec.clone(), idx, kind });
@@ -211,7 +215,7 @@ fn t_oracle(c: &TCase, acc: &mut Acc) -> CaseResult {
     let spec = &c.spec;
     let pair = drive_to(spec, spec.n_msgs())?;
     let name = spec.name_string();
-    let ctx = format!("{name} transport stateless={} write={} len={} buf={} genuine={} r_to_i={}", c.stateless, c.write, c.len, c.buf, c.genuine, c.r_to_i);
+    let ctx = format!("{name} [{:?}] transport stateless={} write={} len={} buf={} genuine={} r_to_i={}", spec.backend_r, c.stateless, c.write, c.len, c.buf, c.genuine, c.r_to_i);
     let data = expand(spec.key_seed, 12, c.len);
     let mut out = vec![0u8; c.buf];
     let (hw, hr) = if c.r_to_i { (pair.r, pair.i) } else { (pair.i, pair.r) };
@@ -302,7 +306,11 @@ fn t_cases(seed: u64, thorough: bool) -> Vec<TCase> {
             if !thorough && (si + k) % 6 != 0 {
                 continue;
             }
-            let spec = SessionSpec::simple(HsName { pattern: pat.to_string(), psks: vec![] }, *suite, mix(seed, 40 + k as u64));
+            let mut spec = SessionSpec::simple(HsName { pattern: pat.to_string(), psks: vec![] }, *suite, mix(seed, 40 + k as u64));
+            if ring_covers(*suite) && (si + k) % 2 == 0 {
+                spec.backend_i = crate::instr::Backend::RingFirst;
+                spec.backend_r = crate::instr::Backend::RingFirst;
+            }
             let oneway = spec.pattern().is_oneway();
             for stateless in [false, true] {
                 for write in [true, false] {
@@ -340,6 +348,46 @@ pub fn run(ctx: &Ctx) {
     ctx.run_list("handshake_framing", &cs, true, oracle);
     let ts = t_cases(ctx.seed, thorough);
     ctx.run_list("transport_framing", &ts, true, t_oracle);
+    // dense sweep: EVERY transport message length 0..=4200 (+ neighbourhoods of 8192/16384/32768 and
+    // the top of the range), genuine, read into buffers with 0/1/15/16 spare bytes, on both backends
+    {
+        let mut dense = Vec::new();
+        let suites = all_suites();
+        let mut lens: Vec<usize> = (0..=ctx.tier.pick(2400usize, 12000)).collect();
+        for c in [8192usize, 16384, 32768] {
+            lens.extend(c - 20..=c + 20);
+        }
+        lens.extend(65470..=65537);
+        for (li, len) in lens.iter().enumerate() {
+            for (bi, backend) in [crate::instr::Backend::Default, crate::instr::Backend::RingFirst].into_iter().enumerate() {
+                // a suite both backends provide, rotating cipher and hash
+                let suite = *suites.iter().filter(|s| ring_covers(**s)).nth((li + bi) % 4).unwrap();
+                let mut spec = SessionSpec::simple(HsName { pattern: ["NN", "N", "IK"][li % 3].to_string(), psks: vec![] }, suite, mix(ctx.seed, 77));
+                spec.backend_i = backend;
+                spec.backend_r = backend;
+                let slack = [0usize, 1, 15, 16][(li / 3 + bi) % 4];
+                dense.push(TCase { spec: spec.clone(), stateless: li % 2 == 0, write: false, len: *len, buf: len.saturating_sub(16) + slack, genuine: true, r_to_i: false });
+                if li % 4 == 0 {
+                    dense.push(TCase { spec, stateless: li % 8 == 0, write: true, len: len.saturating_sub(16), buf: *len + slack, genuine: true, r_to_i: false });
+                }
+            }
+        }
+        ctx.run_list("dense_transport_lengths", &dense, true, t_oracle);
+        // the same for handshake payloads of three message shapes
+        let mut hd = Vec::new();
+        for plen in 0..=ctx.tier.pick(1700usize, 6000) {
+            for (bi, backend) in [crate::instr::Backend::Default, crate::instr::Backend::RingFirst].into_iter().enumerate() {
+                let (pat, idx) = [("NN", 1usize), ("XX", 2), ("IK", 0)][plen % 3];
+                let suite = *suites.iter().filter(|s| ring_covers(**s)).nth((plen + bi) % 4).unwrap();
+                let mut spec = SessionSpec::simple(HsName { pattern: pat.to_string(), psks: vec![] }, suite, mix(ctx.seed, 78));
+                spec.backend_i = backend;
+                spec.backend_r = backend;
+                let slack = [0usize, 1, 15, 16][(plen / 3 + bi) % 4];
+                hd.push(Case { spec, idx, kind: Kind::HsReadGenuine { plen, pbuf: plen + slack } });
+            }
+        }
+        ctx.run_list("dense_handshake_payloads", &hd, true, oracle);
+    }
     // random lengths: windows that no fixed list anticipates
     let names2 = std::sync::Arc::new(all_hs_names());
     let seed = ctx.seed;
@@ -350,7 +398,11 @@ pub fn run(ctx: &Ctx) {
             let names = names2.clone();
             (any::<u16>(), 0usize..24, any::<u16>(), prop_oneof![6 => 0usize..2048, 2 => 0usize..66000], -20i64..40, any::<u64>(), 0u8..6).prop_map(move |(ni, si, mi, plen, delta, ks, kind)| {
                 let suites = all_suites();
-                let spec = SessionSpec::simple(names[crate::engine::pick(ni, names.len())].clone(), suites[si], mix(seed, ks));
+                let mut spec = SessionSpec::simple(names[crate::engine::pick(ni, names.len())].clone(), suites[si], mix(seed, ks));
+                if ring_covers(suites[si]) && ks % 2 == 0 {
+                    spec.backend_i = crate::instr::Backend::RingFirst;
+                    spec.backend_r = crate::instr::Backend::RingFirst;
+                }
                 let idx = crate::engine::pick(mi, spec.n_msgs());
                 let ov = spec.layouts()[idx].overhead;
                 let max = 65535 - ov;
@@ -372,7 +424,11 @@ pub fn run(ctx: &Ctx) {
             (0usize..6, 0usize..24, any::<bool>(), any::<bool>(), prop_oneof![6 => 0usize..2048, 2 => 0usize..66000], -20i64..40, any::<bool>(), any::<bool>(), any::<u64>()).prop_map(move |(p, si, stateless, write, len, delta, genuine, r_to_i, ks)| {
                 let pats = ["NN", "N", "XX", "K", "IK", "X"];
                 let suites = all_suites();
-                let spec = SessionSpec::simple(HsName { pattern: pats[p].to_string(), psks: vec![] }, suites[si], mix(seed, ks));
+                let mut spec = SessionSpec::simple(HsName { pattern: pats[p].to_string(), psks: vec![] }, suites[si], mix(seed, ks));
+                if ring_covers(suites[si]) && ks % 2 == 0 {
+                    spec.backend_i = crate::instr::Backend::RingFirst;
+                    spec.backend_r = crate::instr::Backend::RingFirst;
+                }
                 let oneway = spec.pattern().is_oneway();
                 let base = if write { len + 16 } else { len.saturating_sub(16) };
                 TCase { spec, stateless, write, len, buf: (base as i64 + delta).max(0) as usize, genuine: genuine || write, r_to_i: r_to_i && !oneway }
